@@ -14,7 +14,7 @@ import time
 
 HERE = os.path.dirname(os.path.abspath(__file__))
 VERIF = os.path.dirname(HERE)
-LEAN_DIR = os.path.join(VERIF, "lean")
+LEAN_DIR = os.environ.get("VERIF_LEAN_DIR") or os.path.join(VERIF, "lean")   # override: development only (a second build directory)
 REPO = os.environ.get("VERIF_REPO", "/repo")
 DRIVER = os.path.join(LEAN_DIR, ".lake", "build", "bin", "driver")
 STD_AXIOMS = {"propext", "Classical.choice", "Quot.sound"}
